@@ -11,7 +11,7 @@ import os
 
 from .. import kernel as K
 from ..basicdrv import Driver
-from .common import Run, execute, b, shash
+from .common import Run, execute, b, u, shash
 
 NAME = 'rnd'
 PROPS = ('C39',)
@@ -55,8 +55,15 @@ def gen(rng, tier, prop):
             ops.append({'op': 'rndpos', 'x': rng.choice(['1', '2.5', '1E10', '.001', '32767'])})
         elif r < 0.64:
             ops.append({'op': 'rndneg', 'x': rng.choice(neg_args)})
-        elif r < 0.76:
+        elif r < 0.73:
             ops.append({'op': 'randomize', 'x': rng.choice(reseed_args)})
+        elif r < 0.745:
+            # a RANDOMIZE that fails part-way must leave the sequence where it was
+            ops.append({'op': 'randomize_fail', 'x': rng.choice(['"12"', 'S$', 'S$+"1"', '1/0*0', 'ASC("")', 'CVI("")'])})
+        elif r < 0.76:
+            # no argument: the seed is asked for at a prompt and typed by the simulated user
+            ops.append({'op': 'randomize_prompt', 'text': rng.choice(['1', '0', '-5', '32767', '40000', '-32769', '1e+100', '3.7',
+                                                                      'abc', '', '12,3', '65536', '1D5'])})
         elif r < 0.79:
             ops.append({'op': 'randomize_timer'})
         elif r < 0.86:
@@ -196,6 +203,31 @@ def _arm(run, w, cfg, ops, memo, arm_no):
                     observe(d.eval(b'RND'))
                 elif r.err not in (6,):
                     run.violate('C39', 'randomize-error', 'RANDOMIZE %s -> %r' % (op['x'], r))
+            elif k == 'randomize_fail':
+                r = d.exec(b'S$="7":RANDOMIZE ' + b(op['x']))
+                run.probe('failed_randomize')
+                if r.err is None:
+                    # accepted after all: it is a reseed like any other
+                    prev_s = m.s
+                    m.s = None
+                    m.pending_key = ('rz', prev_s, op['x']) if prev_s is not None else None
+                    observe(d.eval(b'RND'))
+                # refused: the model's seed is unchanged, the next value is checked against it
+            elif k == 'randomize_prompt':
+                # answers that are refused ("?Redo from start") are followed by a valid one
+                w.inputs.pending.append(K.sig_stream(u(op['text']) + u'\r'))
+                w.inputs.pending.append(K.sig_stream(u'77\r'))
+                r = d.exec(b'RANDOMIZE', poll_cap=400)
+                w.inputs.pending.clear()
+                # an answer that was not needed must not be read by a later prompt
+                d.exec(b'WHILE INKEY$<>"":WEND')
+                run.probe('prompted_randomize')
+                if r.err is None:
+                    prev_s = m.s
+                    m.s = None
+                    # how many answers were consumed is the engine's business: the key is the text
+                    m.pending_key = ('rzp', prev_s, op['text']) if prev_s is not None else None
+                    observe(d.eval(b'RND'))
             elif k == 'randomize_timer':
                 d.exec(b'RANDOMIZE TIMER')
                 m.s = None
